@@ -303,9 +303,79 @@ Definition reg_fit (n_iter_max : nat) (w0 : P) : res reg_stored :=
   end.
 End RegLoop.
 
+(* ---------------------------------------------------------------- the ridge block updates of CPRegressor.fit, concretely.
+   X : n :: sx (samples first), y : n :: so, fs = the factors of the sx modes followed by those of the so modes,
+   all with R columns; weights are ones.  T.solve is a black box `solve block A B` (its answer is data).
+   Entry-level transcription of the reshapes / transposes of the source:
+     input mode i:   phi[(s, o), (j, r)] = sum_J' X[s, J' with j inserted at i] * prod_{k <> i} fs_k[(J' ++ o)_k, r]
+                     W_i = reshape(solve(phi'phi + reg I, phi' reshape(y, -1)), (d_i, R))
+     output mode l:  phi[(s, o'), r]     = sum_J X[s, J] * prod_{k <> i} fs_k[(J ++ o')_k, r]      (o' = o without position l)
+                     Y_r[(s, o'), c]     = y[s, o' with c inserted at l]
+                     W_i = transpose(solve(phi'phi + reg I, phi' Y_r)) *)
+Section CpBlocks.
+Variable solve : nat -> tensor F -> tensor F -> tensor F.
+Variable reg : F.
+
+Definition row_split (n : nat) (s : list nat) (row : nat) : nat * list nat :=
+  let idx := unravel (n :: s) row in (hd 0 idx, tl idx).
+
+Definition cp_phi_in (X : tensor F) (fs : list (tensor F)) (so : list nat) (R i : nat) : tensor F :=
+  let n := nsamp X in let sx := sshape X in
+  tabulate [n * prod so; nth i sx 0 * R] (fun idx =>
+    let so_idx := row_split n so (nth 0 idx 0) in
+    let j := nth 1 idx 0 / R in let r := nth 1 idx 0 mod R in
+    fsum_idx (remove_nth i sx)
+      (fun J' => fmul Op (tget X (fst so_idx :: insert_at i j J')) (cp_coeff (remove_nth i fs) (J' ++ snd so_idx) r))).
+
+Definition cp_phi_out (X : tensor F) (fs : list (tensor F)) (so : list nat) (R i : nat) : tensor F :=
+  let n := nsamp X in let sx := sshape X in let so' := remove_nth (i - length sx) so in
+  tabulate [n * prod so'; R] (fun idx =>
+    let so_idx := row_split n so' (nth 0 idx 0) in
+    fsum_idx sx (fun J => fmul Op (tget X (fst so_idx :: J)) (cp_coeff (remove_nth i fs) (J ++ snd so_idx) (nth 1 idx 0)))).
+
+(* reshape(moveaxis(y, l + 1, -1), (-1, y.shape[l + 1])) *)
+Definition cp_y_out (y : tensor F) (so : list nat) (l : nat) : tensor F :=
+  let n := nsamp y in let so' := remove_nth l so in
+  tabulate [n * prod so'; nth l so 0] (fun idx =>
+    let so_idx := row_split n so' (nth 0 idx 0) in
+    tget y (fst so_idx :: insert_at l (nth 1 idx 0) (snd so_idx))).
+
+(* dot(transpose(phi), phi) + reg * eye *)
+Definition ridge_lhs (phi : tensor F) : tensor F :=
+  let m := nth 0 (shape phi) 0 in let p := nth 1 (shape phi) 0 in
+  tabulate [p; p] (fun idx => let a := nth 0 idx 0 in let b := nth 1 idx 0 in
+    fadd Op (fsumn m (fun t => fmul Op (tget phi [t; a]) (tget phi [t; b])))
+            (fmul Op reg (if a =? b then f1 Op else f0 Op))).
+(* dot(transpose(phi), B) for a vector or a matrix B *)
+Definition ridge_rhs (phi B : tensor F) : tensor F :=
+  let m := nth 0 (shape phi) 0 in let p := nth 1 (shape phi) 0 in
+  match shape B with
+  | [_] => tabulate [p] (fun idx => fsumn m (fun t => fmul Op (tget phi [t; nth 0 idx 0]) (tget B [t])))
+  | _ => tabulate [p; nth 1 (shape B) 0]
+           (fun idx => fsumn m (fun t => fmul Op (tget phi [t; nth 0 idx 0]) (tget B [t; nth 1 idx 0])))
+  end.
+Definition mtranspose (M : tensor F) : tensor F :=
+  tabulate [nth 1 (shape M) 0; nth 0 (shape M) 0] (fun idx => tget M [nth 1 idx 0; nth 0 idx 0]).
+
+Definition cp_block (X y : tensor F) (so : list nat) (R : nat) (fs : list (tensor F)) (i : nat) : tensor F :=
+  if i <? length (sshape X) then
+    let phi := cp_phi_in X fs so R i in
+    reshape [nth i (sshape X) 0; R] (solve i (ridge_lhs phi) (ridge_rhs phi (reshape [prod (shape y)] y)))
+  else
+    let phi := cp_phi_out X fs so R i in
+    mtranspose (solve i (ridge_lhs phi) (ridge_rhs phi (cp_y_out y so (i - length (sshape X))))).
+(* for i in range(len(W)): W[i] = ... (each block sees the blocks already updated in this pass) *)
+Definition cp_sweep (X y : tensor F) (so : list nat) (R : nat) (fs : list (tensor F)) : list (tensor F) :=
+  fold_left (fun cur i => set_nth i (cp_block X y so R cur i) cur) (seq 0 (length fs)) fs.
+End CpBlocks.
+
 (* the two instances of `rebuild`: blocks = (weights, factors) resp. (core, factors) *)
 Definition cp_rebuild (b : tensor F * list (tensor F)) : tensor F := cp_to_tensor (fst b) (snd b).
 Definition tucker_rebuild (b : tensor F * list (tensor F)) : tensor F := tucker_to_tensor (fst b) (snd b).
+
+(* one pass of CPRegressor.fit over the blocks (weights, factors): the weights stay ones *)
+Definition cp_concrete_sweep (solve : nat -> tensor F -> tensor F -> tensor F) (reg : F) (X y : tensor F) (so : list nat) (R : nat)
+  (b : tensor F * list (tensor F)) : tensor F * list (tensor F) := (fst b, cp_sweep solve reg X y so R (snd b)).
 
 (* helpers for statements: adding a constant tensor to every sample; re-ordering samples *)
 Definition shift (X c : tensor F) : tensor F :=
